@@ -18,7 +18,8 @@ _Lagrangian that ExponentiatedGradient.fit hands its parameters to):
                     (clone / ctor:<Class> / alias:<expr> / unknown)
   fitHistoryReads   flow-sensitive: fitted attributes (not constructor parameters) that `fit` may READ (`self.<n>`,
                     `hasattr(self, "<n>")`, `getattr(self, "<n>", ..)`) before it has definitely (re)assigned them in this call
-  initDerivedReads  attributes read by fit that are neither parameters nor ever assigned outside `__init__`
+  initDerivedReads  attributes read by fit / the prediction entry points that are neither parameters nor ever assigned
+                    outside `__init__`;  initDerivedDeps: the constructor parameters each `__init__`-only attribute depends on
 plus
   momentLatch       some `load_data` in fairlearn/reductions/_moments asserts / raises on `data_loaded`
   constraintsInPlace / constraintsCopied   how EG (via _Lagrangian) and GridSearch treat the object behind `constraints`
@@ -786,6 +787,23 @@ def _constraints_use(cv, roots, lag):
     return in_place, copied
 
 
+def _to_prefit(cv):
+    """ThresholdOptimizer.fit: `if not self.prefit: <clone + fit> else: <check, alias>` -> (the prefit branch calls .fit on
+    something?, it aliases the user's estimator?)"""
+    fit = cv.methods.get("fit")
+    ifs = [st for st in ast.walk(fit) if isinstance(st, ast.If) and ast.unparse(st.test) in ("not self.prefit", "self.prefit")]
+    if len(ifs) != 1 or not ifs[0].orelse:
+        raise Untranslatable("ThresholdOptimizer.fit: expected exactly one `if (not) self.prefit: .. else: ..`")
+    st = ifs[0]
+    pre = st.orelse if ast.unparse(st.test) == "not self.prefit" else st.body
+    refits = any(isinstance(c, ast.Call) and isinstance(c.func, ast.Attribute) and c.func.attr in FIT_ROOTS
+                 for x in pre for c in ast.walk(x))
+    alias = any(ast.unparse(x) == "self.estimator_ = self.estimator" for x in pre)
+    if not alias and not refits:
+        raise Untranslatable("ThresholdOptimizer.fit: prefit branch neither aliases nor fits the estimator")
+    return refits, alias
+
+
 def analyse(repo):
     trees = {}
     views = {}
@@ -801,6 +819,9 @@ def analyse(repo):
         pmeth = [m for m in PREDICT_ROOTS if m in cv.methods] if tag != "LAG" else []
         pa, pm, pe = cv.facts(pmeth)
         hist, initd = cv.history_reads("fit") if tag != "LAG" else ([], [])
+        # attributes only `__init__` sets that a prediction entry point reads go stale after set_params just the same
+        for m in pmeth:
+            initd = sorted(set(initd) | set(cv.history_reads(m)[1]))
         data[tag] = dict(cls=name, params=cv.params, fitAssigned=fa, fitMutated=fm, fitSelfEscapes=fe,
                          predictMethods=pmeth, predictAssigned=sorted(set(pa) | set(pm)), predictSelfEscapes=pe,
                          fitReturns=cv.returns(FIT_ROOTS) if tag != "LAG" else [],
@@ -811,6 +832,7 @@ def analyse(repo):
     for tag in ("EG", "GS"):
         cons[tag] = _constraints_use(views[tag], FIT_ROOTS, views["LAG"])
     reinit, setup, keep = _adv_rules(repo, views["ADV"])
+    data["_toprefit"] = _to_prefit(views["TO"])
     return data, latch, cons, (reinit, setup, keep)
 
 
@@ -847,7 +869,7 @@ def lifecycle_src(repo):
     src += table("fitHistoryReads", "List String", lambda d: slist(d["fitHistoryReads"]),
                  "fitted attributes that `fit` may read before it has definitely reassigned them")
     src += table("initDerivedReads", "List String", lambda d: slist(d["initDerivedReads"]),
-                 "attributes read by `fit` that are neither parameters nor assigned outside `__init__`")
+                 "attributes read by `fit` or a prediction entry point that are neither parameters nor assigned outside `__init__`")
     src += table("initDerivedDeps", "List (String × List String)",
                  lambda d: "[" + ", ".join(f"({lstr(a)}, {slist(ps)})" for a, ps in d["initDerivedDeps"]) + "]",
                  "attributes `__init__` sets that are not constructor parameters, with the parameters their value depends on")
@@ -864,6 +886,11 @@ def lifecycle_src(repo):
     src += "/-- fit loads a clone / deep copy of the `constraints` parameter -/\n"
     src += "def constraintsCopied : EstCls → Bool\n" + "".join(
         f"  | .{t} => {'true' if cons[t][1] else 'false'}\n" for t in ("EG", "GS")) + "  | _ => false\n\n"
+    pre_refits, pre_alias = data["_toprefit"]
+    src += "/-- `ThresholdOptimizer.fit`, prefit=True branch: something is `.fit(..)`-ed there -/\n"
+    src += f"def toPrefitRefits : Bool := {'true' if pre_refits else 'false'}\n"
+    src += "/-- … and `self.estimator_ = self.estimator` (the user's object is used as it is) -/\n"
+    src += f"def toPrefitAliases : Bool := {'true' if pre_alias else 'false'}\n\n"
     src += "/-- `_AdversarialFairness.fit`: the value passed as `reinitialize` -/\n"
     src += f"def advReinit (has_classes warm_start : Bool) : Bool := {reinit}\n"
     src += "/-- `_validate_input`: the guard of `self.__setup(..)`; `is_fitted` = `hasattr(self, \"_is_setup\")` -/\n"
